@@ -280,6 +280,64 @@ theorem plan_shape (classify : Bytes → Option GName) (hf : Nat) (c : Cfg) :
   · intro hi he
     simp [startServer, he, hi]
 
+private theorem quic_plan (classify : Bytes → Option GName) (c : Cfg) :
+    ∃ r, startServerQuic classify c = .plan ⟨!c.insecure, some (effSni c), some r, 0⟩ := by
+  cases h : classify (effSni c) with
+  | none => exact ⟨.host (effSni c), by simp [startServerQuic, h]⟩
+  | some g =>
+    cases g with
+    | dns v => exact ⟨.host v, by simp [startServerQuic, h]⟩
+    | ip v => exact ⟨.addr v, by simp [startServerQuic, h]⟩
+    | other k v => exact ⟨.host (effSni c), by simp [startServerQuic, h]⟩
+
+/-- **The verified identity does not depend on the transport.**  For a usable, non-empty server name the TCP/TLS path
+    (`tls_start_server`) and the QUIC path (`quic_start_server` + `QuicLayer.start_tls`) verify the SAME reference identifier
+    (host name as host name, IP literal as IP address) with the same verify mode; and on the QUIC path a plan with verification on
+    ALWAYS has a reference identifier (there is no "chain only" mode for IP literals or anything else). -/
+theorem verified_identity_transport_independent (classify : Bytes → Option GName) (hf : Nat) (c : Cfg)
+    (hne : effSni c ≠ []) (g : GName) (hg : classify (effSni c) = some g) (hk : ∀ k v, g ≠ .other k v) :
+    (∃ p q, startServerT .tcp classify hf c = .plan p ∧ startServerT .quic classify hf c = .plan q
+        ∧ p.ref = q.ref ∧ p.verifyPeer = q.verifyPeer ∧ q.ref.isSome = true)
+    ∧ (∀ q, startServerT .quic classify hf c = .plan q → q.ref.isSome = true ∧ q.verifyPeer = !c.insecure) := by
+  have hne' : (effSni c).isEmpty = false := by
+    cases h : effSni c with
+    | nil => exact absurd h hne
+    | cons a t => rfl
+  constructor
+  · cases g with
+    | dns v =>
+      exact ⟨⟨!c.insecure, some v, some (.host v), hf⟩, ⟨!c.insecure, some (effSni c), some (.host v), 0⟩,
+        by simp [startServerT, startServer, hne', hg], by simp [startServerT, startServerQuic, hg], rfl, rfl, rfl⟩
+    | ip v =>
+      exact ⟨⟨!c.insecure, none, some (.addr v), hf⟩, ⟨!c.insecure, some (effSni c), some (.addr v), 0⟩,
+        by simp [startServerT, startServer, hne', hg], by simp [startServerT, startServerQuic, hg], rfl, rfl, rfl⟩
+    | other k v => exact absurd rfl (hk k v)
+  · intro q hq
+    obtain ⟨r, hr⟩ := quic_plan classify c
+    simp only [startServerT, hr, StartRes.plan.injEq] at hq
+    subst hq
+    exact ⟨rfl, rfl⟩
+
+/-- With ssl_insecure off, on EITHER transport, a handshake is established only if the chain is valid and the certificate's SANs
+    name the identifier the plan carries per the specification. -/
+theorem insecure_off_requires_verify_any_transport (tr : Transport) (classify : Bytes → Option GName) (hf : Nat) (c : Cfg)
+    (chainOk : Bool) (sans : List GName) (hins : c.insecure = false)
+    (h : outcomeT tr classify hf c chainOk sans = .established) :
+    chainOk = true ∧ ∃ p r, startServerT tr classify hf c = .plan p ∧ p.ref = some r ∧ «matches» sans r = true := by
+  cases tr with
+  | tcp =>
+    have h' : outcome classify hf c chainOk sans = .established := by simpa [outcomeT, outcome, startServerT] using h
+    obtain ⟨h1, p, r, hp, _, hr, _, _, hm⟩ := insecure_off_requires_verify classify hf c chainOk sans hins h'
+    exact ⟨h1, p, r, by simpa [startServerT] using hp, hr, hm⟩
+  | quic =>
+    obtain ⟨r, hr⟩ := quic_plan classify c
+    simp only [outcomeT, startServerT, hr, handshakeOk, hins, Bool.not_false, if_true] at h ⊢
+    split at h
+    · rename_i hok
+      simp only [Bool.and_eq_true] at hok
+      exact ⟨hok.1, _, r, rfl, rfl, ossl_refines_spec _ _ hok.2⟩
+    · cases h
+
 /-- A SAN pattern that does not begin with `*` is compared literally (ASCII case-insensitively) by the OpenSSL transcription:
     no wildcard semantics can arise from `w*.x`, `www.*.x` or from names without `*`. -/
 theorem ossl_literal_unless_leading_star (p r : Bytes) (h : p.head? ≠ some star) :
